@@ -63,7 +63,9 @@ LEVEL_TEXT = ("Seeded broad histories (incl. failing calls, comparison "
               "(__class__, __iter__, __next__, items, __len__) must not "
               "crash; stored objects whose __del__ looks at the (transient) "
               "container again while an operation releases them must find "
-              "it sound (_check()) and must not touch freed memory; the same "
+              "it sound (_check()) and must not touch freed memory; lazy "
+              "sequences held open ACROSS mutations and probed again (ledger "
+              "paused until they are closed); the same "
               "plans on the ASan+UBSan build with assertions. Sampling.")
 
 OBJ_FAMS = [f for f in FAMILIES if f != "fs" and (f[0] == "O" or f[1] == "O")]
